@@ -385,6 +385,45 @@ def cli_names(ctx):
         shutil.rmtree(tmp, ignore_errors=True)
 
 
+def cli_content(ctx):
+    """the command line on listings whose comments, literals and DATA items hold characters outside ASCII (the text is
+    carried through unchanged): converted or refused, never a traceback.  Run in a fresh interpreter in UTF-8 mode so that
+    the result does not depend on this process's locale."""
+    import subprocess
+    import sys
+
+    tmp = tempfile.mkdtemp(prefix="c15cc")
+    try:
+        texts = {"comment": "10 REM caf\u00e9 \u2013 men\u00fc\n", "literal": '10 PRINT "\u00a9 1984 \u201cQUOTED\u201d"\n', "data": "10 DATA na\u00efve , 2\n20 READ A$ , B\n",
+                 "apostrophe-comment": "10 A = 1 ' \u00bd price\n", "latin1-only": '10 PRINT "\u00e9\u00e8"\n', "ascii": '10 PRINT "PLAIN"\n'}
+        for nm, text in texts.items():
+            for extra in ([], ["-D"], ["-l", "-z", "-s", "80"]):
+                inp, outp = os.path.join(tmp, nm + ".bas"), os.path.join(tmp, nm + ".b09")
+                with open(inp, "w", encoding="utf-8") as f:
+                    f.write(text)
+                code = "import sys; sys.path.insert(0, %r); from coco import decb_to_b09; decb_to_b09.start(%r)" % (REPO, [inp, outp] + extra)
+                r = subprocess.run([sys.executable, "-c", code], env=dict(os.environ, PYTHONUTF8="1", PYTHONHASHSEED="0"), capture_output=True, text=True, timeout=120)
+                ctx.stats["programs"] += 1
+                ctx.stats["obligations"] += 1
+                if r.returncode == 0:
+                    ctx.stats["identity"] += 1
+                    continue
+                last = (r.stderr.strip().split("\n") or [""])[-1]
+                cls = last.split(":")[0].split(".")[-1]
+                if cls in DOCUMENTED_CLI:
+                    ctx.stats["identity"] += 1
+                else:
+                    ctx.violation(f"crash:cli-content:{nm}:{cls}", f"decb_to_b09 on a listing with non-ASCII text in its {nm} {extra}: {last[:140]}", {"source": text, "options": "cli", "argv": extra})
+                    break
+    finally:
+        import shutil
+
+        shutil.rmtree(tmp, ignore_errors=True)
+
+
+DOCUMENTED_CLI = {"ParseError", "IncompleteParseError", "LineNumberTooLargeException", "ValidationError"}
+
+
 def regex_lemmas(ctx, tier):
     from coco.b09 import procbank
     from coco.b09.grammar import PROCNAME_REGEX, grammar
@@ -459,6 +498,7 @@ def run(tier):
     option_extremes(ctx)
     config_files(ctx)
     cli_names(ctx)
+    cli_content(ctx)
     ctx.stats["obligations"] += ctx.stats["programs"]
     ctx.add_solver_stats(smt.STATS.export())
     ctx.extra["solver"] = {"z3": smt.z3_version()}
@@ -473,6 +513,10 @@ def run(tier):
 def replay(rec):
     if "source" in rec:
         opts = rec.get("options")
+        if opts == "cli":
+            probe = Ctx("C15", "quick", "other", technique="replay")
+            cli_content(probe)
+            return bool(probe.new_violations or probe.known_hit)
         if opts == "file":
             r = guarded(rec["source"], FULL, via_file=True)
             print(r)
